@@ -285,17 +285,8 @@ def table_in_claim(key, mod):
     return True
 
 
-# grouped keys for root causes shared by all methods (see the report); everything else is keyed per method
+# every failure is keyed per method + parameter + value class + outcome
 def finding_key(t, outcome):
-    dim, par, vc = t['dim'], t['param'], t['vclass'].split('@')[0]
-    if t['kind'] == 'scalar':
-        if outcome == 'OverflowError' and vc in ('pos_inf', 'neg_inf'):
-            return f'{dim}:*:{par}:inf:OverflowError'
-        if dim == '2d' and par == 'half_window' and outcome == 'returned' and vc in (
-                'non_integer', 'non_integer_len1_array', 'pair_one_non_integer'):
-            return f'2d:*:half_window:non_integer:returned'
-        if par in ('poly_order', 'spline_degree') and vc == 'negative_fraction' and outcome == 'returned':
-            return f'{dim}:*:{par}:negative_fraction:returned'
     return O.task_key(t, outcome)
 
 
@@ -369,7 +360,7 @@ def run(ctx):
     ntasks, nfail = oracle(ctx)
     ctx.note(f'direct oracle: {ntasks} calls with one invalid argument, {nfail} claimed cases not rejected with '
              'ValueError/TypeError (all matched against known_findings keys or reported)')
-    ctx.note('outside the statement, recorded only (input_distribution observed:*): lam=nan/inf (accepted), non-integer '
+    ctx.note('outside the statement, recorded only (input_distribution observed:*): lam=nan/inf (accepted), positive non-integer '
              'diff_order/poly_order/num_knots/spline_degree (truncated or other exception), half_window of the '
              'classification methods (golotvin/std_distribution/fastchrom do not call _check_half_window; '
              'smooth_half_window=0 is documented valid), boolean-mask weights of classification methods, '
